@@ -233,3 +233,56 @@ def run(prog, chk):
     ia = prog.func("Transport.is_active")
     rets = [unparse(r.value) for r in walk_no_defs(ia.node) if isinstance(r, ast.Return)]
     chk.ob("R2.is-active", "Transport.is_active", rets == ["self.active"], ia.loc, "returns %s" % rets)
+    _handlers_before_teardown_total(prog, chk, run_f)
+
+
+def _handlers_before_teardown_total(prog, chk, run_f):
+    """R3: the handlers of run() that record the exception execute *before* the teardown block; if one of them raises,
+    the exception leaves run() through the interpreter-shutdown guard and the teardown is skipped altogether (active
+    stays True, no event is set, every blocked caller stays blocked).  So their bodies must be total: a subscript
+    <exc>.args[k] needs an established len(<exc>.args) > k - `if e.args:` only establishes one element - and a
+    numeric format of an argument needs its type established."""
+    from ..core.bounds import facts
+    tries = [t for t in walk_no_defs(run_f.node) if isinstance(t, ast.Try) and any(
+        any(isinstance(x, ast.Assign) and unparse(x.targets[0]) == "self.saved_exception" for x in walk_no_defs(h)) for h in t.handlers)]
+    if len(tries) != 1:
+        raise AnalysisError("Transport.run", "the try statement whose handlers record the exception was not found")
+    fl = Flow(prog, run_f, implicit=False)
+    nh = 0
+    for h in tries[0].handlers:
+        if not h.name:
+            continue
+        nh += 1
+        hname = unparse(h.type) if h.type is not None else "bare"
+        subs = [x for x in walk_no_defs(h) if isinstance(x, ast.Subscript) and isinstance(x.ctx, ast.Load) and unparse(x.value) == "%s.args" % h.name
+                and isinstance(x.slice, ast.Constant) and isinstance(x.slice.value, int)]
+        bad = []
+        for x in subs:
+            k = x.slice.value
+            need = k + 1 if k >= 0 else -k
+            nodes = [n for n in fl.cfg.node_containing(x) if n.id in fl.live]
+            if not nodes:
+                continue
+            have = 0
+            for c in fl.nodes(lambda q: q.kind == "cond"):
+                t = c.ast
+                est = None
+                arm = None
+                if unparse(t) == "%s.args" % h.name:
+                    est, arm = 1, "T"
+                else:
+                    for a in ("T", "F"):
+                        for fct in (facts(t, "len(%s.args)" % h.name)[a] if isinstance(t, ast.Compare) else []):
+                            lo = fct.get("lo")
+                            if lo is not None and lo[0] is None:
+                                est, arm = lo[1], a
+                if est is None:
+                    continue
+                if fl.dominated([nodes[0]], guard_edge=fl.edge_guard(lambda q, t=t: q is t, arm)):
+                    have = max(have, est)
+            if have < need:
+                bad.append("%s needs len(%s.args) >= %d, only >= %d is established" % (unparse(x), h.name, need, have))
+        chk.ob("R3.recording-handler-is-total", "run:except %s" % hname, not bad, "%s:%d" % (run_f.module.path, h.lineno),
+               "handler body %s" % ("has no unguarded subscript of the exception's arguments" if not bad else
+                                    "can raise before the teardown block runs: " + "; ".join(bad)))
+    chk.floor("R3", "recording handlers of run()", nh, 4)
